@@ -8,24 +8,26 @@
      -> `kahn` (Kahn.v = networkx.topological_sort) -> the producers of the `column` / `null` groups, in that order
         (`ResourceManager.__iter__`), which is what `_create_simulants` iterates.
 
-   Anchors (line numbers of /repo/src/vivarium/framework, docstrings stripped):
+   Anchors (line numbers of /repo/src/vivarium/framework as printed by tools/strip.py):
      resource.py        add_resources 163-209, _get_resource_group 211-232, _to_graph 234-266, sorted_nodes 140-157,
                         __iter__ 268-281
-     population/manager.py  InitializerComponentSet.add 57-118, register_simulant_initializer 259-309,
-                        _create_simulants 329-351
+     population/manager.py  InitializerComponentSet.add 58-119, register_simulant_initializer 264-314,
+                        _create_simulants 334-356
      values.py          on_post_setup 273-296, register_value_producer 298-330, _register_value_producer 332-352,
-                        register_value_modifier 354-397, get_value, _convert_dependencies, _get_modifier_name
+                        register_value_modifier 354-397, get_value 399-419, _convert_dependencies 421-436,
+                        _get_modifier_name 438-455
      randomness/manager.py  get_randomness_stream 67-120, _get_randomness_stream 122-138
-     component.py       setup_component: `setup(builder)` runs first, then _register_simulant_initializer 752-770
+     component.py       setup_component 349-377: `setup(builder)` runs first, then _register_simulant_initializer 752-770
 
    Names are numbers.  Resource names are structured (`res`) instead of dotted strings: the model therefore assumes
-   that no user-chosen name contains a dot / equals "None" (string collisions between differently-built resource
-   names are outside the model).
+   that differently-built resource names never collide as strings (no user-chosen name contains a dot).
 
-   `nog` ("name on get"): whether `ValuesManager.get_value` names the pipeline object it returns (true since the
-   repair "pipelines are named when first requested" - finding F-Q; false = the behaviour before it, kept as a
-   documented variant: a pipeline used as a source or modifier before its own producer was registered had
-   `name = None`, its dependency was recorded as `value.None` and silently dropped).                                 *)
+   Pipeline objects: since the repair "pipelines are named when first requested" (commit 74bd7d49, finding F-Q) every
+   Pipeline object a component can hold (returned by get_value or register_value_producer) has its name set, so a
+   pipeline used as the source / a modifier of another pipeline is always recorded as the dependency `value.<p>` and as
+   the modifier name `<p>`.  (Before that commit a pipeline requested before its own producer was registered had
+   name None, the dependency `value.None` matched nothing and the edge was silently dropped - the order of the
+   initializers then depended on the order the components were supplied in.  The model describes the repaired code.) *)
 From Viv Require Import Common Kahn.
 Local Open Scope Z_scope.
 
@@ -34,13 +36,11 @@ Local Open Scope Z_scope.
 (* ------------------------------------------------------------------------------------------------------------ *)
 Inductive mname : Set :=            (* _get_modifier_name *)
   | MFun (f : Z)                    (* "<owner.name>.<method name>" of a bound method / function *)
-  | MPipe (p : Z)                   (* a Pipeline object used as modifier: its .name *)
-  | MNone.                          (* ... when that name is still None *)
+  | MPipe (p : Z).                  (* a Pipeline object used as modifier: its .name *)
 
 Inductive res : Set :=
   | RCol (c : Z)                    (* column.<c> *)
   | RVal (v : Z)                    (* value.<v> *)
-  | RValNone                        (* value.None  (dependency on a pipeline whose name is None) *)
   | RSrc (v : Z)                    (* value_source.<v> *)
   | RMiss (v : Z)                   (* missing_value_source.<v> *)
   | RMod (v : Z) (i : Z) (m : mname)(* value_modifier.<v>.<i>.<m> *)
@@ -49,14 +49,13 @@ Inductive res : Set :=
 
 Definition mname_eqb (a b : mname) : bool :=
   match a, b with
-  | MFun x, MFun y => x =? y | MPipe x, MPipe y => x =? y | MNone, MNone => true | _, _ => false
+  | MFun x, MFun y => x =? y | MPipe x, MPipe y => x =? y | _, _ => false
   end.
 
 Definition res_eqb (a b : res) : bool :=
   match a, b with
   | RCol x, RCol y | RVal x, RVal y | RSrc x, RSrc y | RMiss x, RMiss y | RStream x, RStream y
   | RNull x, RNull y => x =? y
-  | RValNone, RValNone => true
   | RMod v i m, RMod v' i' m' => (v =? v') && (i =? i') && mname_eqb m m'
   | _, _ => false
   end.
@@ -96,26 +95,25 @@ Record group : Set := mkgroup {
   g_deps : list res }.
 
 Record state : Set := mkstate {
-  groups : list group;              (* ResourceManager._resource_group_map values, in creation order *)
+  groups : list group;              (* the registered ResourceGroups, in creation order *)
   nulls : Z;                        (* _null_producer_count *)
   comps : list Z;                   (* InitializerComponentSet._components *)
   cols : list Z;                    (* InitializerComponentSet._columns_produced *)
   pnames : list Z;                  (* ValuesManager._pipelines keys, in creation order *)
-  named : list Z;                   (* pipelines whose .name is set *)
   sourced : list Z;                 (* pipelines whose .source is set *)
   muts : list (Z * mutator);        (* all registered modifiers (pipeline, modifier), in registration order *)
   streams : list Z }.               (* RandomnessManager._decision_points *)
 
-Definition init_state : state := mkstate [] 0 [] [] [] [] [] [] [].
+Definition init_state : state := mkstate [] 0 [] [] [] [] [] [].
 
 Definition with_groups (st : state) (gs : list group) (n : Z) : state :=
-  mkstate gs n (comps st) (cols st) (pnames st) (named st) (sourced st) (muts st) (streams st).
+  mkstate gs n (comps st) (cols st) (pnames st) (sourced st) (muts st) (streams st).
 Definition with_inits (st : state) (cs cl : list Z) : state :=
-  mkstate (groups st) (nulls st) cs cl (pnames st) (named st) (sourced st) (muts st) (streams st).
-Definition with_pipes (st : state) (pn nm so : list Z) (mu : list (Z * mutator)) : state :=
-  mkstate (groups st) (nulls st) (comps st) (cols st) pn nm so mu (streams st).
+  mkstate (groups st) (nulls st) cs cl (pnames st) (sourced st) (muts st) (streams st).
+Definition with_pipes (st : state) (pn so : list Z) (mu : list (Z * mutator)) : state :=
+  mkstate (groups st) (nulls st) (comps st) (cols st) pn so mu (streams st).
 Definition with_streams (st : state) (ss : list Z) : state :=
-  mkstate (groups st) (nulls st) (comps st) (cols st) (pnames st) (named st) (sourced st) (muts st) ss.
+  mkstate (groups st) (nulls st) (comps st) (cols st) (pnames st) (sourced st) (muts st) ss.
 
 (* ---- resource.py add_resources 202-209: a resource may have one producer only ---- *)
 Definition owned (gs : list group) (r : res) : bool := existsb (fun g => rmem r (g_names g)) gs.
@@ -139,19 +137,26 @@ Definition add_resources (st : state) (names : list res) (prod : Z) (deps : list
 
 (* ---- values.py ---- *)
 Definition ensure (v : Z) (l : list Z) : list Z := if zmem v l then l else l ++ [v].       (* defaultdict access *)
-Definition add_set (v : Z) (l : list Z) : list Z := if zmem v l then l else v :: l.
 
-(* get_value: creates the pipeline if needed; names it iff nog *)
-Definition get_value (nog : bool) (st : state) (v : Z) : state :=
-  with_pipes st (ensure v (pnames st)) (if nog then add_set v (named st) else named st) (sourced st) (muts st).
+(* get_value 414-419: creates the pipeline if needed (and names it) *)
+Definition get_value (st : state) (v : Z) : state :=
+  with_pipes st (ensure v (pnames st)) (sourced st) (muts st).
 
-(* "value.<func.name>" of _convert_dependencies when func is a Pipeline *)
-Definition val_res (nm : list Z) (p : Z) : res := if zmem p nm then RVal p else RValNone.
-(* _get_modifier_name *)
-Definition mut_name (nm : list Z) (u : mutator) : mname :=
-  match u with UFun f => MFun f | UPipe p => if zmem p nm then MPipe p else MNone end.
+(* _get_modifier_name 441-448 *)
+Definition mut_name (u : mutator) : mname := match u with UFun f => MFun f | UPipe p => MPipe p end.
 
+(* the three requires_* lists as resource names *)
 Definition req_deps (rc rv rs : list Z) : list res := map RCol rc ++ map RVal rv ++ map RStream rs.
+
+(* _convert_dependencies 428-436: a Pipeline depends on value.<its name>, anything else on the declared requirements *)
+Definition src_deps (src : source) (rc rv rs : list Z) : list res :=
+  match src with SPipe p => [RVal p] | SFun => req_deps rc rv rs end.
+Definition mod_deps (u : mutator) (rc rv rs : list Z) : list res :=
+  match u with UPipe p => [RVal p] | UFun _ => req_deps rc rv rs end.
+
+(* register_simulant_initializer 303-311 *)
+Definition init_deps (creates rc rv rs : list Z) : list res :=
+  req_deps rc rv rs ++ (if zmem tracked creates then [] else [RCol tracked]).
 
 Definition muts_of (v : Z) (mu : list (Z * mutator)) : list mutator := map snd (filter (fun e => fst e =? v) mu).
 
@@ -163,33 +168,30 @@ Definition raw_res (t : rawtype) (n : Z) : res :=
              | RwStream => RStream n | RwUnknown => RNull n end.
 
 (* one builder call.  kc = configuration.randomness.key_columns *)
-Definition step (nog : bool) (kc : list Z) (st : state) (d : decl) : result state :=
+Definition step (kc : list Z) (st : state) (d : decl) : result state :=
   match d with
   | DInit comp creates rc rv rs =>
-      (* InitializerComponentSet.add 105-118 *)
+      (* InitializerComponentSet.add 105-119 *)
       if zmem comp (comps st) then Rejected EPopulation
       else if existsb (fun c => zmem c (cols st)) creates || zhas_dup creates then Rejected EPopulation
       else
-        (* register_simulant_initializer 298-309 *)
+        (* register_simulant_initializer 302-314 *)
         add_resources (with_inits st (comp :: comps st) (creates ++ cols st)) (map RCol creates) comp
-          (req_deps rc rv rs ++ (if zmem tracked creates then [] else [RCol tracked]))
+          (init_deps creates rc rv rs)
   | DProducer v src rc rv rs =>
-      let st0 := match src with SPipe p => get_value nog st p | SFun => st end in
+      let st0 := match src with SPipe p => get_value st p | SFun => st end in
       (* _register_value_producer 341-352 *)
       if zmem v (sourced st0) then Rejected EDynamicValue
       else
-        let st1 := with_pipes st0 (ensure v (pnames st0)) (add_set v (named st0)) (v :: sourced st0) (muts st0) in
+        let st1 := with_pipes st0 (ensure v (pnames st0)) (v :: sourced st0) (muts st0) in
         (* 322-325 *)
-        add_resources st1 [RSrc v] (-1)
-          (match src with SPipe p => [val_res (named st1) p] | SFun => req_deps rc rv rs end)
+        add_resources st1 [RSrc v] (-1) (src_deps src rc rv rs)
   | DModifier v u rc rv rs =>
-      let st0 := match u with UPipe p => get_value nog st p | UFun _ => st end in
+      let st0 := match u with UPipe p => get_value st p | UFun _ => st end in
       (* 387-397 *)
-      let nm := mut_name (named st0) u in
-      let st1 := with_pipes st0 (ensure v (pnames st0)) (named st0) (sourced st0) (muts st0 ++ [(v, u)]) in
-      add_resources st1 [RMod v (Z.of_nat (length (muts_of v (muts st1)))) nm] (-1)
-        (match u with UPipe p => [val_res (named st1) p] | UFun _ => req_deps rc rv rs end)
-  | DGetValue v => Ok (get_value nog st v)
+      let st1 := with_pipes st0 (ensure v (pnames st0)) (sourced st0) (muts st0 ++ [(v, u)]) in
+      add_resources st1 [RMod v (Z.of_nat (length (muts_of v (muts st1)))) (mut_name u)] (-1) (mod_deps u rc rv rs)
+  | DGetValue v => Ok (get_value st v)
   | DStream s crn =>
       (* _get_randomness_stream 125-129, get_randomness_stream 98-105 *)
       if zmem s (streams st) then Rejected ERandomness
@@ -204,23 +206,23 @@ Definition step (nog : bool) (kc : list Z) (st : state) (d : decl) : result stat
       end
   end.
 
-Fixpoint run_decls (nog : bool) (kc : list Z) (st : state) (ds : list decl) : result state :=
+Fixpoint run_decls (kc : list Z) (st : state) (ds : list decl) : result state :=
   match ds with
   | [] => Ok st
-  | d :: r => match step nog kc st d with
-              | Ok st' => run_decls nog kc st' r
+  | d :: r => match step kc st d with
+              | Ok st' => run_decls kc st' r
               | Rejected e => Rejected e
               | OutOfFuel => OutOfFuel
               end
   end.
 
 (* ---- values.py on_post_setup 287-296: value.<name> depends on its source (or missing_value_source) and on every
-        modifier, named by _get_modifier_name AS OF NOW ---- *)
-Fixpoint number_from (i : Z) (v : Z) (nm : list Z) (us : list mutator) : list res :=
-  match us with [] => [] | u :: r => RMod v i (mut_name nm u) :: number_from (i + 1) v nm r end.
+        modifier, numbered from 1 ---- *)
+Fixpoint number_from (i : Z) (v : Z) (us : list mutator) : list res :=
+  match us with [] => [] | u :: r => RMod v i (mut_name u) :: number_from (i + 1) v r end.
 
 Definition value_deps (st : state) (v : Z) : list res :=
-  (if zmem v (sourced st) then RSrc v else RMiss v) :: number_from 1 v (named st) (muts_of v (muts st)).
+  (if zmem v (sourced st) then RSrc v else RMiss v) :: number_from 1 v (muts_of v (muts st)).
 
 Fixpoint post_groups (st : state) (vs : list Z) (gs : list group) : result (list group) :=
   match vs with
@@ -233,8 +235,8 @@ Fixpoint post_groups (st : state) (vs : list Z) (gs : list group) : result (list
   end.
 
 (* all registrations of a simulation: the groups after post_setup *)
-Definition build (nog : bool) (kc : list Z) (ds : list decl) : result (list group) :=
-  match run_decls nog kc init_state ds with
+Definition build (kc : list Z) (ds : list decl) : result (list group) :=
+  match run_decls kc init_state ds with
   | Ok st => post_groups st (pnames st) (groups st)
   | Rejected e => Rejected e
   | OutOfFuel => OutOfFuel
@@ -276,8 +278,8 @@ Definition sort_groups (gs : list group) : result (list Z) :=
   end.
 
 (* the order in which _create_simulants calls the initializers, or the refusal *)
-Definition init_order (nog : bool) (kc : list Z) (ds : list decl) : result (list Z) :=
-  match build nog kc ds with
+Definition init_order (kc : list Z) (ds : list decl) : result (list Z) :=
+  match build kc ds with
   | Ok gs => sort_groups gs
   | Rejected e => Rejected e
   | OutOfFuel => OutOfFuel
@@ -287,23 +289,31 @@ Definition init_order (nog : bool) (kc : list Z) (ds : list decl) : result (list
 (* the verified checker: does an observed call order respect the declared requirements?                          *)
 (* (soundness w.r.t. the declarative specification: ResourcesProofs.respects_sound)                             *)
 (* ------------------------------------------------------------------------------------------------------------ *)
+(* what a declaration feeds into a pipeline: (target pipeline, Some p if the callable is the pipeline p /
+   None if it is a function with declared requirements, requires_columns, requires_values, requires_streams) *)
+Definition feeds (d : decl) : option (Z * option Z * list Z * list Z * list Z) :=
+  match d with
+  | DProducer v SFun rc rv rs | DModifier v (UFun _) rc rv rs => Some (v, None, rc, rv, rs)
+  | DProducer v (SPipe p) _ _ _ | DModifier v (UPipe p) _ _ _ => Some (v, Some p, [], [], [])
+  | _ => None
+  end.
+
 Definition is_stream_decl (s : Z) (d : decl) : bool :=
   match d with DStream s' false => s' =? s | _ => false end.
+(* the columns a required stream stands for: the CRN key columns, if the stream is a registered resource *)
 Definition stream_cols (kc : list Z) (ds : list decl) (s : Z) : list Z :=
   if existsb (is_stream_decl s) ds then kc else [].
 
-(* the target pipeline of a producer / modifier declaration *)
-Definition target (d : decl) : option Z :=
-  match d with DProducer v _ _ _ _ | DModifier v _ _ _ _ => Some v | _ => None end.
-
 (* columns a declaration contributes to its pipeline's needs, given the needs N of the other pipelines *)
 Definition contrib (kc : list Z) (ds : list decl) (N : Z -> list Z) (d : decl) : list Z :=
-  match d with
-  | DProducer _ SFun rc rv rs | DModifier _ (UFun _) rc rv rs =>
-      rc ++ flat_map N rv ++ flat_map (stream_cols kc ds) rs
-  | DProducer _ (SPipe p) _ _ _ | DModifier _ (UPipe p) _ _ _ => N p
-  | _ => []
+  match feeds d with
+  | Some (_, None, rc, rv, rs) => rc ++ flat_map N rv ++ flat_map (stream_cols kc ds) rs
+  | Some (_, Some p, _, _, _) => N p
+  | None => []
   end.
+
+Definition target (d : decl) : option Z :=
+  match feeds d with Some (v, _, _, _, _) => Some v | None => None end.
 
 Fixpoint znodup (l : list Z) : list Z :=
   match l with [] => [] | x :: r => if zmem x r then znodup r else x :: znodup r end.
@@ -348,6 +358,7 @@ Definition creators (ds : list decl) (c : Z) : list Z :=
                      | DRaw RwColumn names pid _ => if zmem c names then [pid] else []
                      | _ => [] end) ds.
 
+(* b occurs after the first occurrence of a *)
 Fixpoint beforeb (a b : Z) (o : list Z) : bool :=
   match o with [] => false | x :: r => if x =? a then zmem b r else beforeb a b r end.
 
@@ -379,9 +390,14 @@ Definition err_code (e : err) : Z :=
   | EPopulation => 1 | EDynamicValue => 2 | ERandomness => 3 | EResource => 4 | _ => 9
   end.
 
+(* The property demands a refusal, not a particular error class (a refactoring that lets a different layer catch the
+   same duplicate is harmless): model and implementation must both refuse; the classes are reported by the harness
+   (tags), the model's class is kept for the theorems (C09_refusal_classes).  code 0 = no error. *)
+Definition refusal_agrees (e : err) (code : Z) : bool := (0 <? err_code e) && (0 <? code).
+
 Inductive obs : Set :=
   | ObsErr (code : Z)                                   (* the simulation refused: error class *)
-  | ObsOk (ogroups : list (list res * Z * list res))    (* _resource_group_map after post_setup: names, producer id, dependencies *)
+  | ObsOk (ogroups : list (list res * Z * list res))    (* nodes of ResourceManager.graph after post_setup: names, producer id, dependencies *)
           (oedges : list (res * res))                   (* ResourceManager.graph.edges, as (first name, first name) *)
           (calls : list (list Z)).                      (* per creation of simulants: initializer ids in call order *)
 
@@ -403,12 +419,12 @@ Definition case : Set := (list Z * list decl * obs)%type.
 
 Definition check_case (c : case) : bool :=
   let '(kc, ds, ob) := c in
-  match build true kc ds with
-  | Rejected e => match ob with ObsErr code => err_code e =? code | _ => false end
+  match build kc ds with
+  | Rejected e => match ob with ObsErr code => refusal_agrees e code | _ => false end
   | OutOfFuel => false
   | Ok gs =>
       match sort_groups gs, ob with
-      | Rejected e, ObsErr code => err_code e =? code
+      | Rejected e, ObsErr code => refusal_agrees e code
       | Ok o, ObsOk ogs oes calls =>
           let T := saturate (S (length ds)) kc ds [] in
           groups_agree gs ogs
@@ -422,7 +438,7 @@ Definition check_case (c : case) : bool :=
 (* the model's Kahn order equals the observed one exactly (reported by the harness, not required) *)
 Definition same_order (c : case) : bool :=
   let '(kc, ds, ob) := c in
-  match init_order true kc ds, ob with
+  match init_order kc ds, ob with
   | Ok o, ObsOk _ _ calls => forallb (zlist_eqb o) calls
   | _, _ => true
   end.
